@@ -229,6 +229,7 @@ def h(
     # pandas - guess axis names
     axis_names = extract_axis_names(data, axis_names=axis_names)
     check_nan = data is not None and not dropna
+    dtype = kwargs.pop("dtype", None)
 
     dim, array, array_mask = extract_nd_array(data, dim=dim, dropna=dropna)
 
@@ -248,6 +249,7 @@ def h(
         array,
         binnings=bin_schemas,
         weights=weights,
+        dtype=dtype,
         axis_names=axis_names,
         name=name,
         title=title,
